@@ -445,3 +445,37 @@ def load_replays(pid):
                 with open(os.path.join(d, fn)) as f:
                     out.append((os.path.join(d, fn), json.load(f)))
     return out
+
+
+# ---------------------------------------------------------------------------------------------------------------------------
+# process time zone as a case dimension: the encoding of a (naive) datetime must not depend on where the process runs
+TZS = ["UTC0", "CET-1CEST,M3.5.0,M10.5.0/3", "IST-5:30", "<-03>3", "NZST-12NZDT,M9.5.0,M4.1.0/3", "EST5EDT,M3.2.0,M11.1.0"]
+
+
+class process_tz:
+    """with process_tz("CET-1CEST,..."): ...   POSIX TZ strings only (no zoneinfo database needed); None = leave as is"""
+    def __init__(self, tz):
+        self.tz = tz
+
+    def __enter__(self):
+        if self.tz is None:
+            return self
+        import os
+        import time
+        self.old = os.environ.get("TZ")
+        os.environ["TZ"] = self.tz
+        time.tzset()
+        return self
+
+    def __exit__(self, *a):
+        if self.tz is None:
+            return False
+        import os
+        import time
+        if self.old is None:
+            os.environ.pop("TZ", None)
+        else:
+            os.environ["TZ"] = self.old
+        time.tzset()
+        return False
+
